@@ -229,12 +229,21 @@ def instance_fingerprint(instance: JobShopInstance):
         ],
         "name": instance.name,
         # cached array views handed out to callers (an observer must not write through them)
-        "dma": arr(instance.durations_matrix_array),
-        "mma": arr(instance.machines_matrix_array),
+        "dma": _safe_arr(instance, "durations_matrix_array"),
+        "mma": _safe_arr(instance, "machines_matrix_array"),
         # every other cached view is a mutable list that callers receive by reference
         "views": {v: _view(instance, v) for v in _LIST_VIEWS},
         "metadata": repr(sorted((str(k), repr(x)) for k, x in instance.metadata.items())),
     }
+
+
+def _safe_arr(instance, name):
+    """a cached array view; a view that cannot be computed is 'the same' only as long as it keeps failing the same way
+    (the views themselves are judged by C14's Views events, where a raising view is reported as such)"""
+    try:
+        return arr(getattr(instance, name))
+    except Exception as ex:  # noqa: BLE001
+        return "exc:" + type(ex).__name__
 
 
 _LIST_VIEWS = ("durations_matrix", "machines_matrix", "operations_by_machine", "max_duration_per_job",
